@@ -492,10 +492,10 @@ def units(ctx):
             us.append(("refine", d, md, R))
     cs = [("comp", 2), ("theta", 60), ("theta", 120)] if not ctx.thorough else [("comp", 2), ("theta", 45), ("theta", 60), ("theta", 90), ("theta", 120), ("theta", 135)]
     for d in (1, 2):
-        for depth_max in (1, 2, 3):
-            if d == 2 and depth_max == 3 and not ctx.thorough:
-                continue
-            for which in ("mono", "front", "wave"):
+        for depth_max in (1, 2, 3, 4):
+            if d == 2 and depth_max >= 3 and not (ctx.thorough and depth_max == 3):
+                continue  # depth 4 (unbalanced trees with old fine and young coarse nodes) for 1-D domains only
+            for which in (("mono", "front", "wave") if depth_max < 4 else ("mono", "wave")):
                 use = cs if d == 1 else (cs[:2] if not ctx.thorough else (cs[:4] if depth_max < 3 else cs[:2]))
                 for spec in use:
                     for eps in ((0.05, 0.3) if (ctx.thorough and not (d == 2 and depth_max == 3)) else (0.1,)):
